@@ -72,7 +72,7 @@ int IndexOf(const Checkable *c)
 }
 
 // thread-local context: a lower bound for the clock value the next UpdateNextCheck() on this thread samples
-struct Ctx { const Checkable *ck = nullptr; long t0 = 0; int pcr = 0; };
+struct Ctx { const Checkable *ck = nullptr; long t0 = 0; int pcr = 0; bool have = false; long t1 = 0, next = 0; };
 thread_local Ctx tl_Ctx;
 
 void SchCheckFn(const Checkable::Ptr& checkable, const CheckResult::Ptr& cr, const Dictionary::Ptr&, bool)
@@ -132,15 +132,24 @@ void InitOnce()
 		CkInfo& ci = *l_Cks[id];
 		long t1 = NowUs();
 		long next = ToUs(c->GetNextCheck());
-		long I;
 		if (tl_Ctx.pcr) {
-			// inside ProcessCheckResult the ObjectLock is held: the state UpdateNextCheck saw is the state we see
-			bool soft = c->GetStateType() == StateTypeSoft && c->GetLastCheckResult() != nullptr;
-			I = soft ? ci.ri_us : ci.ci_us;
-		} else {
-			I = std::max(ci.ci_us, ci.ri_us);
+			// inside ProcessCheckResult: keep the observation; the interval it is compared with is chosen from the
+			// state AFTER the result (OnNewCheckResult below) - "retry_interval while in a soft problem state"
+			tl_Ctx.have = true; tl_Ctx.t1 = t1; tl_Ctx.next = next;
+			return;
 		}
-		Record({'N', id, tl_Ctx.t0, t1, next, I, tl_Ctx.pcr});
+		Record({'N', id, tl_Ctx.t0, t1, next, std::max(ci.ci_us, ci.ri_us), 0});
+		tl_Ctx = Ctx{};
+	});
+	// end of ProcessCheckResult, same thread: the post-state is final (a result exists now by definition)
+	Checkable::OnNewCheckResult.connect([](const Checkable::Ptr& c, const CheckResult::Ptr&, const MessageOrigin::Ptr&) {
+		if (!l_Running.load()) return;
+		if (tl_Ctx.ck != c.get() || !tl_Ctx.pcr || !tl_Ctx.have) return;
+		int id = IndexOf(c.get());
+		if (id < 0) return;
+		CkInfo& ci = *l_Cks[id];
+		long I = (c->GetStateType() == StateTypeSoft) ? ci.ri_us : ci.ci_us;
+		Record({'N', id, tl_Ctx.t0, tl_Ctx.t1, tl_Ctx.next, I, 1});
 		tl_Ctx = Ctx{};
 	});
 }
@@ -249,6 +258,65 @@ VOP(sch_unc)
 	Out(o.str());
 	Utility::VerifSetTime(-1);
 }
+
+// sch_cnew kind=host|svc max=<max_check_attempts> ci4= ri4= off=     a never-checked checkable
+// sch_cr now=<T> state=<0..3> [active=0|1]                           the REAL ProcessCheckResult (local: origin = null)
+static Checkable::Ptr l_PcrCk;
+static Host::Ptr l_PcrHost;
+static long l_PcrNo = 0;
+
+static void PcrCleanup()
+{
+	if (!l_PcrHost) return;
+	Host::Ptr h = l_PcrHost;
+	l_PcrCk = nullptr; l_PcrHost = nullptr;
+	for (const Service::Ptr& sv : h->GetServices()) CkRemoveObject(sv);
+	CkRemoveObject(h);
+}
+
+VOP(sch_cnew)
+{
+	InitOnce();
+	PcrCleanup();
+	Utility::VerifSetTime(a.dbl("now", 2000000000));
+	std::string hn = "schp" + std::to_string(++l_PcrNo);
+	bool svc = a.str("kind", "host") == "svc";
+	std::ostringstream c;
+	auto attrs = [&](bool subject) {
+		std::ostringstream o;
+		o << "  check_command = \"schcmd\"\n  enable_active_checks = false\n  enable_flapping = false\n";
+		if (subject)
+			o << "  max_check_attempts = " << a.num("max", 3) << "\n  check_interval = " << (a.num("ci4", 20) / 4.0)
+			  << "\n  retry_interval = " << (a.num("ri4", 4) / 4.0) << "\n";
+		return o.str();
+	};
+	c << "object Host \"" << hn << "\" {\n" << attrs(!svc) << "}\n";
+	if (svc) c << "object Service \"s\" {\n  host_name = \"" << hn << "\"\n" << attrs(true) << "}\n";
+	LoadConfig(c.str());
+	l_PcrHost = Host::GetByName(hn);
+	if (svc) l_PcrCk = Service::GetByNamePair(hn, "s"); else l_PcrCk = l_PcrHost;
+	if (!l_PcrCk) throw std::runtime_error("sch: subject not created");
+	l_PcrCk->SetSchedulingOffset(a.num("off"));
+}
+
+VOP(sch_cr)
+{
+	if (!l_PcrCk) throw std::runtime_error("sch_cr without sch_cnew");
+	double now = a.dbl("now");
+	Utility::VerifSetTime(now);
+	CheckResult::Ptr cr = new CheckResult();
+	cr->SetState((ServiceState)a.num("state"));
+	cr->SetScheduleStart(now); cr->SetScheduleEnd(now); cr->SetExecutionStart(now); cr->SetExecutionEnd(now);
+	cr->SetActive(a.num("active", 1) != 0);
+	cr->SetOutput("sch");
+	auto res = l_PcrCk->ProcessCheckResult(cr);
+	std::ostringstream o;
+	o << "pcr res=" << (int)res << " ty=" << (long)l_PcrCk->GetStateType()
+	  << " next=" << std::llround((l_PcrCk->GetNextCheck() - now) * 10000.0);
+	Out(o.str());
+}
+
+static struct SchCaseEnd { SchCaseEnd() { RegisterCaseEnd([]() { PcrCleanup(); Utility::VerifSetTime(-1); }); } } l_SchCaseEnd;
 
 // sch_run seed=S n=N max=M dur=<ms of storm> tp=<pool threads> imin=<ms> imax=<ms> slow=<pct> thr=<pct> rate=<ops per second>
 VOP(sch_run)
